@@ -297,7 +297,7 @@ class ModelBuilderSemantics:
                 base = defined
 
         known = {'ast': ast, 'exp': ast}
-        return self._builder._instanceof(
+        node = self._builder._instanceof(
             typename,
             known,
             ast,
@@ -305,3 +305,8 @@ class ModelBuilderSemantics:
             base=base,
             **kwargs,
         )
+        if isinstance(node, Node):
+            # adopt the nodes stored in the new node, so that child.parent
+            # is set without a previous call to children()
+            node.children()
+        return node
